@@ -72,6 +72,30 @@ pub fn canon(m: &Metadata) -> Result<Canon, String> {
     })
 }
 
+fn names_of(cmds: &[Cmd], out: &mut BTreeSet<String>) {
+    for c in cmds {
+        match c {
+            Cmd::Create { name, .. } | Cmd::Rollover { name, .. } => {
+                out.insert(name.clone());
+            }
+            Cmd::Mutated { base, .. } => names_of(std::slice::from_ref(base), out),
+            _ => {}
+        }
+    }
+}
+
+/// the state as the rest of the system sees it: through the public getters (not through
+/// snapshot(), whose bytes an implementation may cache)
+pub fn view(m: &Metadata, names: &BTreeSet<String>) -> Canon {
+    let mut topics = BTreeMap::new();
+    for n in names {
+        if let Some(t) = m.get_topic_state(n) {
+            topics.insert(n.clone(), (t.current_segment, t.leader_node, t.last_sealed_entry_offset, t.sealed_segments.into_iter().collect(), t.segment_leaders.into_iter().collect()));
+        }
+    }
+    Canon { topics, nodes: m.all_node_addrs().into_iter().collect() }
+}
+
 /// what the oracle remembers about sealed segments: (topic, segment) -> (count, leader)
 type Sealed = HashMap<(String, u64), (u64, u64)>;
 
@@ -124,6 +148,8 @@ pub struct SeqOutcome {
 pub fn run_seq(cmds: &[Cmd]) -> SeqOutcome {
     let mut o = SeqOutcome { violation: None, features: BTreeSet::new(), responses: Vec::new() };
     let m = Metadata::new();
+    let mut names = BTreeSet::new();
+    names_of(cmds, &mut names);
     let mut sealed: Sealed = HashMap::new();
     let mut rolled: BTreeSet<String> = BTreeSet::new();
     let mut last_valid = false;
@@ -164,6 +190,19 @@ pub fn run_seq(cmds: &[Cmd]) -> SeqOutcome {
         if let Err(e) = check_invariants(&after, &mut sealed) {
             o.violation = Some(format!("after command #{} {:?}: {}", i, short(c), e));
             return o;
+        }
+        // the same through the public getters; for the topics the commands name the two
+        // observations must agree
+        let v = view(&m, &names);
+        if let Err(e) = check_invariants(&v, &mut sealed) {
+            o.violation = Some(format!("after command #{} {:?} (state read through get_topic_state): {}", i, short(c), e));
+            return o;
+        }
+        for (n, t) in &v.topics {
+            if after.topics.get(n) != Some(t) {
+                o.violation = Some(format!("after command #{} {:?}: snapshot() and get_topic_state({:?}) disagree: {:?} vs {:?}", i, short(c), n, after.topics.get(n), t));
+                return o;
+            }
         }
         // features
         let is_raw = matches!(c, Cmd::Raw(_) | Cmd::Mutated { .. });
@@ -427,8 +466,23 @@ fn apply_quiet(m: &Metadata, c: &Cmd) -> Result<String, String> {
 pub fn run_c20(s1: &[Cmd], s2: &[Cmd], mutation: Option<(u32, u8, bool)>) -> (Option<String>, BTreeSet<String>) {
     let mut f = BTreeSet::new();
     let a = Metadata::new();
+    let mut names = BTreeSet::new();
+    names_of(s1, &mut names);
+    names_of(s2, &mut names);
     let mut rolled: BTreeSet<String> = BTreeSet::new();
-    for c in s1 {
+    // an earlier snapshot is taken a few commands before the one that is transferred (a sender
+    // serves snapshots more than once); how many commands lie in between comes from `mutation`
+    // or the length of s1, so that the case stays a pure function of its inputs
+    let gap = match mutation {
+        Some((p, _, _)) => (p % 7) as usize,
+        None => s1.len() % 5,
+    };
+    let early_at = s1.len().saturating_sub(gap);
+    for (i, c) in s1.iter().enumerate() {
+        if i == early_at {
+            let _ = a.snapshot();
+            f.insert("earlier_snapshot_taken".into());
+        }
         match apply_quiet(&a, c) {
             Ok(r) => {
                 if matches!(c, Cmd::Rollover { .. }) && r.starts_with("Ok") {
@@ -439,10 +493,7 @@ pub fn run_c20(s1: &[Cmd], s2: &[Cmd], mutation: Option<(u32, u8, bool)>) -> (Op
         }
     }
     let snap = a.snapshot();
-    let ca = match canon(&a) {
-        Ok(c) => c,
-        Err(e) => return (Some(e), f),
-    };
+    let ca = view(&a, &names);
     let b = Metadata::new();
     // restoring a damaged snapshot first: fails without effect, or succeeds
     if let Some((pos, byte, truncate)) = mutation {
@@ -474,10 +525,7 @@ pub fn run_c20(s1: &[Cmd], s2: &[Cmd], mutation: Option<(u32, u8, bool)>) -> (Op
     if let Err(e) = b.restore(&snap) {
         return (Some(format!("restoring the sender's snapshot failed: {}", e)), f);
     }
-    let cb = match canon(&b) {
-        Ok(c) => c,
-        Err(e) => return (Some(e), f),
-    };
+    let cb = view(&b, &names);
     if ca != cb {
         return (Some(format!("after restore the receiver differs from the sender: sender {:?} receiver {:?}", ca, cb).chars().take(600).collect()), f);
     }
@@ -496,7 +544,7 @@ pub fn run_c20(s1: &[Cmd], s2: &[Cmd], mutation: Option<(u32, u8, bool)>) -> (Op
         if ra != rb {
             return (Some(format!("command #{} of the common suffix {:?} answered {} on the sender and {} on the restored replica", i, short(c), ra, rb)), f);
         }
-        let (xa, xb) = (canon(&a), canon(&b));
+        let (xa, xb) = (view(&a, &names), view(&b, &names));
         if xa != xb {
             return (Some(format!("after command #{} of the common suffix {:?} the replicas differ", i, short(c))), f);
         }
@@ -505,6 +553,12 @@ pub fn run_c20(s1: &[Cmd], s2: &[Cmd], mutation: Option<(u32, u8, bool)>) -> (Op
                 f.insert("suffix_touches_rolled_topic".into());
             }
         }
+    }
+    // finally the snapshots themselves (once, at the end): equal state, equal canonical snapshot
+    match (canon(&a), canon(&b)) {
+        (Ok(x), Ok(y)) if x == y => {}
+        (Ok(_), Ok(_)) => return (Some("after the common suffix the two replicas produce different snapshots".into()), f),
+        (Err(e), _) | (_, Err(e)) => return (Some(e), f),
     }
     (None, f)
 }
@@ -533,7 +587,7 @@ pub fn c20(ctx: &Ctx) {
             }
             rep
         }),
-        cases: if q { 4000 } else { 200_000 },
+        cases: if q { 30_000 } else { 600_000 },
         workers: 16,
         max_shrink_iters: 2000,
         shrink_secs: 120,
